@@ -16,8 +16,8 @@ func (p *prop) Generate(rng *core.Rand, tier string, emit func(string)) {
 	if p.corpus == nil {
 		p.corpus = loadCorpus()
 	}
-	nSort, nSite, nMut, nGram, nRaw, nLeak := 20000, 1800, 2600, 1500, 1000, 200
-	nRec, nImp := 2600, 1600
+	nSort, nSite, nMut, nGram, nRaw, nLeak := 16000, 1800, 2200, 1300, 900, 200
+	nRec, nImp := 2200, 1300
 	switch tier {
 	case "thorough":
 		nSort, nSite, nMut, nGram, nRaw, nLeak = 300000, 20000, 55000, 25000, 15000, 2000
@@ -72,6 +72,10 @@ func (p *prop) Generate(rng *core.Rand, tier string, emit func(string)) {
 	}
 	for i := 0; i < nSite/5; i++ {
 		emit(genDbindCase(rgl))
+	}
+	// ---- named routes and invoke: no directive lost, every invoked route emitted
+	for i := 0; i < nSite/4; i++ {
+		emit(genNrCase(rgl))
 	}
 	// ---- `servers { name }` renames: determinism over many adaptations, no server lost
 	for i := 0; i < nSite/6; i++ {
